@@ -133,36 +133,54 @@ theorem ceil_le_self (a k : Nat) (ha : 0 < a) (hk : 0 < k) : (a + k - 1) / k ≤
 
 /-! ### monotonicity in the size -/
 
-theorem expectedPerZone_mono (s s' : Int) (k : Nat) (h0 : 0 < s) (h : s ≤ s') (hs' : nearMaxInt s' = false) :
+/-- the quotient plus one for a remainder is the rounded-up quotient. -/
+theorem ceil_eq (a k : Nat) (hk : 0 < k) :
+    (if a % k > 0 then a / k + 1 else a / k) = (a + k - 1) / k := by
+  have h := Nat.div_add_mod a k
+  have hr : a % k < k := Nat.mod_lt a hk
+  have e : a + k - 1 = (a % k + k - 1) + k * (a / k) := by omega
+  rw [e, Nat.add_mul_div_left _ _ hk]
+  by_cases h0 : a % k > 0
+  · rw [if_pos h0]
+    have : (a % k + k - 1) / k = 1 := by
+      apply Nat.div_eq_of_lt_le <;> omega
+    omega
+  · rw [if_neg h0]
+    have : (a % k + k - 1) / k = 0 := Nat.div_eq_of_lt (by omega)
+    omega
+
+theorem expectedPerZone_ceil (size : Int) (k : Nat) (hk : 0 < k) (h1 : size ≠ maxInt) :
+    expectedPerZone size k = ((size.toNat + k - 1) / k : Nat) := by
+  unfold expectedPerZone
+  have hk' : (k == 0) = false := by simp; omega
+  simp only [beq_iff_eq, h1, if_false, hk', Bool.false_eq_true]
+  rw [ceil_eq _ _ hk]
+
+/-- sizes are Go `int`s (`s' ≤ MaxInt`). -/
+theorem expectedPerZone_mono (s s' : Int) (k : Nat) (h0 : 0 < s) (h : s ≤ s') (hmax : s' ≤ maxInt) :
     expectedPerZone s k ≤ expectedPerZone s' k := by
-  unfold expectedPerZone nearMaxInt maxInt at *
-  simp only [Bool.and_eq_false_iff, decide_eq_false_iff_not, bne_eq_false_iff_eq, beq_iff_eq] at *
-  by_cases e' : s' = 9223372036854775807
-  · subst e'
-    simp only [if_true]
-    split
-    · omega
-    · split
-      · omega
-      · split
-        · omega
-        · rename_i hk _
-          have hk' : k ≠ 0 := by simpa using hk
-          have : (s.toNat + k - 1) / k ≤ s.toNat := ceil_le_self _ _ (by omega) (by omega)
-          omega
-  · have hlt : s' < 9223372036854775807 - 511 := by
-      rcases hs' with h1 | h1
-      · omega
-      · exact absurd h1 e'
-    have e : ¬ s = 9223372036854775807 := by omega
-    rw [if_neg e, if_neg e']
-    split
-    · omega
-    · have n1 : ¬ (decide (s ≥ 9223372036854775807 - 511) && s != 9223372036854775807) = true := by
-        simp; omega
-      have n2 : ¬ (decide (s' ≥ 9223372036854775807 - 511) && s' != 9223372036854775807) = true := by
-        simp; omega
-      simp only [n1, n2, Bool.and_false, Bool.false_eq_true, if_false]
+  have hM : expectedPerZone maxInt k = maxInt := by simp [expectedPerZone]
+  by_cases e' : s' = maxInt
+  · by_cases e : s = maxInt
+    · rw [e, e']; exact Int.le_refl _
+    · rw [e', hM]
+      by_cases hk : k = 0
+      · subst hk
+        have : expectedPerZone s 0 = 0 := by simp [expectedPerZone, e]
+        rw [this]; unfold maxInt; omega
+      · have hk' : 0 < k := Nat.pos_of_ne_zero hk
+        rw [expectedPerZone_ceil s k hk' e]
+        have h1 : (s.toNat + k - 1) / k ≤ s.toNat := ceil_le_self _ _ (by omega) hk'
+        have h2 : (s.toNat : Int) ≤ maxInt := by omega
+        omega
+  · have e : s ≠ maxInt := by intro e; apply e'; omega
+    by_cases hk : k = 0
+    · subst hk
+      have h1 : expectedPerZone s 0 = 0 := by simp [expectedPerZone, e]
+      have h2 : expectedPerZone s' 0 = 0 := by simp [expectedPerZone, e']
+      rw [h1, h2]; exact Int.le_refl _
+    · have hk' : 0 < k := Nat.pos_of_ne_zero hk
+      rw [expectedPerZone_ceil s k hk' e, expectedPerZone_ceil s' k hk' e']
       have : (s.toNat + k - 1) / k ≤ (s'.toNat + k - 1) / k := Nat.div_le_div_right (by omega)
       omega
 
